@@ -1,5 +1,6 @@
 import WacProofs.Props.C02Full
 import WacProofs.Lemmas.EncScoped2
+import WacProofs.Lemmas.EncNoPanic
 /-
   C01, structural part, second layer: scoping of every index operand of the encoded skeleton,
   exactness of the argument lists, unreachability of the model's panic outcomes.
@@ -16,6 +17,14 @@ import WacProofs.Lemmas.EncScoped2
     `ArgEdgesOk g` (what `set_instantiation_argument` guarantees: one edge per import, edges
     name imports of the package, import names distinct) no name occurs twice, every import of
     the package is supplied and nothing else is.
+  * `encode_no_panic` : `WF g → Closed g → ∀ site, encode g o ≠ .panic site` — none of the model's
+    panic outcomes (the `unwrap`s, index lookups and `assert!`s of the Rust code, and the model's
+    own toposort fuel) is reachable.  `Closed g` (`WacModel/Spec/Scoped.lean`, executable:
+    `closedCheck`) is what C06's graph invariant gives the encoder: edges stay inside the live
+    nodes, no self edge, every instantiation has a registered package and only argument edges,
+    every alias has an instance as its source, every definition is named, every export names a
+    live node.  Proof: `toposort_no_fuel` + `toposort_preds_before` (every edge source is placed
+    earlier) + "`node_indexes` is defined exactly on the nodes emitted so far".
 -/
 namespace Wac.Props.C01
 open Wac Wac.Spec Wac.Props.C02
@@ -97,7 +106,33 @@ theorem encode_args_nodup {g : GraphVal} {o : Opts} {s : Skeleton} (wf : WF g) (
       · exact Or.inl hin
       · exact Or.inr (List.mem_map.mpr ⟨r, (hfil r).mpr ⟨hr, hin⟩, rfl⟩)
 
+/-- `encode_no_panic` -/
+theorem encode_no_panic {g : GraphVal} {o : Opts} (wf : WF g) (cl : Closed g) :
+    ∀ site, encode g o ≠ .panic site := by
+  intro site h
+  unfold encode at h
+  cases hst : encodeSt g o with
+  | ok st => simp [hst] at h
+  | error e => simp [hst] at h
+  | panic s => exact encodeSt_no_panic wf cl s hst
+
+/-- so the outcome of encoding a well-formed closed graph is a skeleton or a documented error -/
+theorem encode_total {g : GraphVal} {o : Opts} (wf : WF g) (cl : Closed g) :
+    (∃ s, encode g o = .ok s) ∨ (∃ e, encode g o = .error e) := by
+  cases h : encode g o with
+  | ok s => exact Or.inl ⟨s, rfl⟩
+  | error e => exact Or.inr ⟨e, rfl⟩
+  | panic s => exact absurd h (encode_no_panic wf cl s)
+
 /-! ### non-vacuity -/
+
+example : Closed exDiamond ∧ Closed exGraph ∧ ∀ site, encode exDiamond { define := false } ≠ .panic site :=
+  ⟨closedCheck_sound (by decide), closedCheck_sound (by decide),
+   encode_no_panic exDiamond_wf (closedCheck_sound (by decide))⟩
+
+/-- `Closed` is needed: an export-map entry for a node that does not exist makes the model (and
+    the indexing `self.0.graph[node]` of the exports loop in the Rust code) panic -/
+example : encode { exGraph with exports := [(['e', '1'], 9)] } {} = .panic "export of a dead node" := by rfl
 
 /-- the diamond (alias of an alias, two versions of one interface shared) and `exGraph` (two
     instantiations of one package) meet the hypotheses; the conclusions are not trivial: the
